@@ -405,9 +405,23 @@ def corpus_cases():
         for f in sorted(os.listdir(d)):
             if f.endswith(".json"):
                 c = json.load(open(os.path.join(d, f)))
+                c.pop("note", None)
+                fill_texts(c)
                 finalize(c)
                 cases.append(c)
     return cases
+
+
+def fill_texts(case):
+    """Corpus cases give the structure; the texts are derived exactly as for generated cases."""
+    for f in case["files"]:
+        if "text" not in f:
+            f["text"] = text_of(case, f["base"], f["uris"], f["prim"], os.path.dirname(f["path"]))
+    for op in case["ops"]:
+        if op["entry"] != "file" and "text" not in op:
+            dirname = os.path.dirname(op["path"]) if op["entry"] == "strfn" else None
+            base = os.path.basename(op["path"])[:-2] if op["entry"] == "strfn" else "z"
+            op["text"] = text_of(case, base, op["content"]["uris"], op["content"]["prim"], dirname)
 
 
 def strip(case):
